@@ -82,9 +82,9 @@ func decoderFamilies(d *decoder, thorough bool) []family {
 		fams = append(fams, bytesOfLen(3))
 	}
 	fams = append(fams, standaloneNests())
-	maxPos := 120
+	maxPos := 40
 	if thorough {
-		maxPos = 1500
+		maxPos = 400
 	}
 	for _, s := range d.seeds {
 		big := len(s.b) > quickFullSeed
@@ -158,9 +158,11 @@ type unitRes struct {
 	Calib    []calibRec `json:"calib,omitempty"`
 	MaxAlloc uint64     `json:"maxalloc"` // largest single-call (or batch) TotalAlloc delta seen
 	MaxLen   int        `json:"maxlen"`
+	MaxFracIn string    `json:"maxfracin,omitempty"`
 	MaxFrac  float64    `json:"maxfrac"` // largest alloc delta as a fraction of the bound (batch delta vs bound of the shortest input = upper bound)
 	Sample   *violRec   `json:"sample,omitempty"`
 	ErrText  string     `json:"errtext,omitempty"`
+	CPUms    int64      `json:"cpums"`
 }
 
 // ---- worker ----
@@ -248,6 +250,7 @@ func workerMain(args []string) {
 			continue
 		}
 		res := unitRes{Unit: u.Unit}
+		cpu0 := selfCPU()
 		d := decs[u.Dec]
 		if d == nil {
 			res.ErrText = "unknown decoder"
@@ -385,8 +388,11 @@ func workerMain(args []string) {
 				if delta > res.MaxAlloc {
 					res.MaxAlloc = delta
 				}
-				if f := float64(delta) / float64(minBound); f > res.MaxFrac {
-					res.MaxFrac = f
+				if nb == 1 {
+					if f := float64(delta) / float64(minBound); f > res.MaxFrac {
+						res.MaxFrac = f
+						res.MaxFracIn = fmt.Sprintf("%s len=%d depth=%d alloc=%d idx=%d", vlib.Hex(batch[0]), len(batch[0]), scanDepth(batch[0]), delta, bidx[0])
+					}
 				}
 				for j := 0; j < nb; j++ {
 					record(bidx[j], batch[j], bres[j], 0, false)
@@ -410,6 +416,7 @@ func workerMain(args []string) {
 					}
 					if f := float64(a) / float64(allocBoundOf(batch[j])); f > res.MaxFrac && f <= 1 {
 						res.MaxFrac = f
+						res.MaxFracIn = fmt.Sprintf("%s len=%d depth=%d alloc=%d idx=%d", vlib.Hex(batch[j]), len(batch[j]), scanDepth(batch[j]), a, bidx[j])
 					}
 					record(bidx[j], batch[j], r, a, true)
 				}
@@ -419,11 +426,20 @@ func workerMain(args []string) {
 			}
 		}
 		journal(u.Unit, -2000000)
+		res.CPUms = int64((selfCPU() - cpu0) / time.Millisecond)
 		b, _ := json.Marshal(res)
 		out.Write(b)
 		out.WriteByte('\n')
 		out.Flush()
 	}
+}
+
+func selfCPU() time.Duration {
+	var ru syscall.Rusage
+	if syscall.Getrusage(syscall.RUSAGE_SELF, &ru) != nil {
+		return 0
+	}
+	return time.Duration(ru.Utime.Nano() + ru.Stime.Nano())
 }
 
 func firstN(s string, n int) string {
@@ -612,6 +628,9 @@ type decStats struct {
 	fatal, hang                                 int64
 	maxAlloc                                    uint64
 	maxFrac                                     float64
+	maxFracIn                                   string
+	cpums                                       int64
+	famCPU                                      map[string]int64
 	units, unitsDone                            int
 	crashes                                     int
 	abandoned                                   bool
@@ -775,9 +794,15 @@ func (s *supervisor) handleResult(u unitCmd, res unitRes) {
 	}
 	if res.MaxFrac > st.maxFrac {
 		st.maxFrac = res.MaxFrac
+		st.maxFracIn = s.famNameLocked(u) + " " + res.MaxFracIn
 	}
+	st.cpums += res.CPUms
 	if fams := s.fams[u.Dec]; u.Fam >= 0 && u.Fam < len(fams) {
 		st.families[fams[u.Fam].name] += res.N
+		if st.famCPU == nil {
+			st.famCPU = map[string]int64{}
+		}
+		st.famCPU[fams[u.Fam].name] += res.CPUms
 	}
 	if len(res.Calib) > 0 && s.calib[u.Dec] == nil {
 		s.calib[u.Dec] = res.Calib
@@ -804,6 +829,10 @@ func (s *supervisor) handleResult(u unitCmd, res unitRes) {
 func (s *supervisor) famName(u unitCmd) string {
 	s.mu.Lock()
 	defer s.mu.Unlock()
+	return s.famNameLocked(u)
+}
+
+func (s *supervisor) famNameLocked(u unitCmd) string {
 	if fams := s.fams[u.Dec]; u.Fam >= 0 && u.Fam < len(fams) {
 		return fams[u.Fam].name + "/" + fams[u.Fam].seed
 	}
@@ -903,10 +932,18 @@ func (s *supervisor) workerLoop() {
 			u2 := u
 			u2.NoWarm = true
 			s.requeue(u2)
-		} else if idx+1 < u.Hi {
-			u2 := u
-			u2.Lo = idx + 1
-			s.requeue(u2)
+		} else {
+			// results of [lo, idx) died with the worker: run that part again, then the rest
+			if idx+1 < u.Hi {
+				u2 := u
+				u2.Lo = idx + 1
+				s.requeue(u2)
+			}
+			if idx > u.Lo {
+				u3 := u
+				u3.Hi = idx
+				s.requeue(u3)
+			}
 		}
 		if crashes >= 60 {
 			s.mu.Lock()
@@ -918,7 +955,7 @@ func (s *supervisor) workerLoop() {
 				s.mu.Unlock()
 			}
 		}
-		s.done(u, false)
+		s.done(u, true) // the unit is finished: its crashing input is handled, the rest re-queued as new units
 	}
 }
 
@@ -1118,7 +1155,7 @@ func (s *supervisor) finish(planned int64) {
 		unitsTotal += st.units
 		unitsDone += st.unitsDone
 		perDec[name] = map[string]any{"inputs": st.n, "ok": st.ok, "err": st.err, "panic": st.panics, "alloc_excess": st.allocv,
-			"fatal": st.fatal, "hang": st.hang, "max_alloc_delta": st.maxAlloc, "max_fraction_of_bound_within_bound": float64(int(st.maxFrac*1000)) / 1000, "by_family": st.families, "seeds": len(s.byName[name].seeds)}
+			"fatal": st.fatal, "hang": st.hang, "cpu_ms": st.cpums, "cpu_ms_by_family": st.famCPU, "max_alloc_delta": st.maxAlloc, "max_fraction_of_bound_within_bound": float64(int(st.maxFrac*1000)) / 1000, "by_family": st.families, "seeds": len(s.byName[name].seeds)}
 		for _, cr := range s.calib[name] {
 			ratios = append(ratios, ratio{name, cr.Seed, cr.Len, cr.Alloc, float64(cr.Alloc) / float64(allocBound(cr.Len))})
 		}
@@ -1138,7 +1175,7 @@ func (s *supervisor) finish(planned int64) {
 	c.Set("evaluations", n)
 	c.Set("distinct_nontrivial", dist)
 	c.Set("outcomes", map[string]int64{"returned-value": ok, "returned-error": er, "panic": pn, "alloc-excess": av, "fatal": fatal, "hang": hang})
-	c.Set("rule", "for every decoder: all byte strings of length 0..2 (0..3 for the cheap decoders, thorough tier) + 63 standalone nests + for every valid seed: truncation at every offset, every single-byte substitution (255 values if seed<=256 B else the 16 type-confusing values), every definite length field inflated to {len+1,2^16,2^32-1,2^63}, every tag renumbered to 15 values / selected nodes wrapped in 6 tags, selected nodes (all when the seed has <=120 nodes (quick) / <=1500 (thorough), else an even stride) replaced by 9 nest shapes x 7 depths, and the same tree mutations inside embedded CBOR with outer lengths corrected. A case = (decoder, input bytes); distinct = distinct input bytes per work unit (64-bit FNV, units never span families; same-length variants equal to an enumerated single-byte substitution are removed at generation); identity mutations are skipped and not counted; non-trivial = every counted case (each is a different byte string reaching the real decoder).")
+	c.Set("rule", "for every decoder: all byte strings of length 0..2 (0..3 for the cheap decoders, thorough tier) + 63 standalone nests + for every valid seed: truncation at every offset, every single-byte substitution (255 values if seed<=256 B else the 16 type-confusing values), every definite length field inflated to {len+1,2^16,2^32-1,2^63}, every tag renumbered to 15 values / selected nodes wrapped in 6 tags, selected nodes (all when the seed has <=40 nodes (quick) / <=400 (thorough), else an even stride) replaced by 9 nest shapes x 7 depths, and the same tree mutations inside embedded CBOR with outer lengths corrected. A case = (decoder, input bytes); distinct = distinct input bytes per work unit (64-bit FNV, units never span families; same-length variants equal to an enumerated single-byte substitution are removed at generation); identity mutations are skipped and not counted; non-trivial = every counted case (each is a different byte string reaching the real decoder).")
 	c.Set("decoders", len(names))
 	c.Set("planned_inputs", planned)
 	c.Set("skipped_identity", skipped)
@@ -1151,7 +1188,7 @@ func (s *supervisor) finish(planned int64) {
 	c.Set("seeds_rejected_by_their_decoder", s.seedRej)
 	var fr []ratio
 	for _, name := range names {
-		fr = append(fr, ratio{dec: name, frac: s.stats[name].maxFrac, alloc: s.stats[name].maxAlloc})
+		fr = append(fr, ratio{dec: name, frac: s.stats[name].maxFrac, alloc: s.stats[name].maxAlloc, seed: s.stats[name].maxFracIn})
 	}
 	sort.Slice(fr, func(i, j int) bool { return fr[i].frac > fr[j].frac })
 	var topf []any
@@ -1159,7 +1196,7 @@ func (s *supervisor) finish(planned int64) {
 		if i >= 8 {
 			break
 		}
-		topf = append(topf, map[string]any{"decoder": r.dec, "max_fraction_of_bound": float64(int(r.frac*1000)) / 1000, "max_alloc_delta": r.alloc})
+		topf = append(topf, map[string]any{"decoder": r.dec, "max_fraction_of_bound": float64(int(r.frac*1000)) / 1000, "case": r.seed})
 	}
 	c.Set("closest_to_alloc_bound_without_exceeding", topf)
 	c.Set("per_decoder", perDec)
